@@ -113,6 +113,15 @@ pub fn frames(seq: &E) -> Vec<(&'static str, Vec<E>)> {
     out
 }
 
+/// does the sequence contain an if-else whose else-branch declares directly (a bare `let`)? The compiler
+/// translates the alternative before the consequent, so this is where translation order and source
+/// order part; one more size class is enumerated for exactly these sequences.
+fn has_declaring_else(e: &E) -> bool {
+    let mut found = false;
+    e.walk(&mut |x| if let E::If(_, _, Some(f)) = x { if matches!(**f, E::Let(..)) { found = true } });
+    found
+}
+
 pub fn run(ctx: &mut Ctx) {
     let bound = if ctx.quick() { 5 } else { 7 };
     let mut g = grammar();
@@ -128,6 +137,21 @@ pub fn run(ctx: &mut Ctx) {
             }
         });
         if ctx.capped { break }
+    }
+    if ctx.quick() && !ctx.capped {
+        // quick tier: N = 6 restricted to sequences with a declaring else-branch, in the block and function frames
+        let mut g6 = grammar();
+        g6.prepare(6);
+        ctx.stage("U-SCOPE(N=6) restricted to sequences with an if-else whose else-branch is a bare let");
+        for_each_owned(ctx, &g6, SEQ, 6, 6, |ctx, _size, seq| {
+            if !has_declaring_else(&seq) { ctx.count("filtered_out:N=6", 1); return }
+            for (frame, prog) in frames(&seq) {
+                if frame != "block" && frame != "function" { continue }
+                semantic_case(ctx, "U-SCOPE", &prog);
+                ctx.count(&format!("frame:{}", frame), 1);
+                ctx.count("programs", 1);
+            }
+        });
     }
     let total: u128 = (1..=bound).map(|n| g.count(SEQ, n)).sum();
     ctx.note(&format!("U-SCOPE: {} statement sequences with <= {} nodes (exact count from the grammar), x 4-6 frames each", total, bound));
